@@ -4,7 +4,7 @@
    DataRow::~DataRow / DataTable::pvDeallocateFreeRaws / pvAllocateRaw / pvDestroyRaws on every run and whose extracted
    code is replayed against event traces of the real DataTable. *)
 From Coq Require Import List Arith Bool Permutation.
-From C19 Require Import Treiber TreiberInv TreiberThms TreiberRace TreiberLive TreiberVariant TreiberExact TreiberBoundary TreiberExamples.
+From C19 Require Import Treiber TreiberInv TreiberThms TreiberRace TreiberLive TreiberVariant TreiberExact TreiberBoundary TreiberRows TreiberExamples.
 Import ListNotations.
 
 (* The 16-clause invariant holds in every state reachable under ANY schedule. *)
@@ -257,6 +257,86 @@ Theorem C19_table_destroyed_before_its_row_refuted :
     (forall l, owner_label l = true -> stepd ds (DL l) = None) /\ status (st ds) 0 = Pending.
 Proof. exact table_destroyed_before_its_row_refuted. Qed.
 Print Assumptions C19_table_destroyed_before_its_row_refuted.
+
+(* ---- The Row OBJECT layer (TreiberRows.stepl: DataRow's move constructor, Swap, move assignment, ptExtractRaw -- the
+   cxx2coq translation of the real member, Gen_DataRow.v -- and the destructor's guard) on top of the free-list machine.
+   Invariant for every schedule: a constructed Row object holding a buffer points to its table's list head and the buffer
+   is a live detached one; no two objects hold the same buffer; every detached buffer has a holder. *)
+Theorem C19_row_objects_invariant : forall ls, reachable_l ls -> linv ls.
+Proof. exact linv_reachable. Qed.
+Print Assumptions C19_row_objects_invariant.
+
+(* Every run of the layered machine is a run of the base machine: all theorems above apply to it. *)
+Theorem C19_row_layer_refines : forall ls, reachable_l ls -> reachable (lbase ls).
+Proof. exact rows_layer_reachable. Qed.
+Print Assumptions C19_row_layer_refines.
+
+(* The precondition the base machine ASSUMES for DBegin is a theorem about the Row class: any constructed Row object can be
+   destroyed on any idle thread -- never a null mFreeRaws, never a buffer somebody else also holds (no second push). *)
+Theorem C19_any_row_object_can_be_destroyed_on_any_idle_thread :
+  forall ls t o, reachable_l ls -> o_live (objs ls o) = true -> dpcs (lbase ls) t = Idle ->
+  exists ls', stepl ls (LDestroy t o) = Some ls' /\ o_live (objs ls' o) = false /\
+    match o_raw (objs ls o) with
+    | None => lbase ls' = lbase ls
+    | Some r => dpcs (lbase ls') t = Start r /\ status (lbase ls') r = Pending /\
+                (forall o', o' <> o -> o_raw (objs ls' o') <> Some r)
+    end.
+Proof. exact destroy_always_enabled. Qed.
+Print Assumptions C19_any_row_object_can_be_destroyed_on_any_idle_thread.
+
+Theorem C19_detached_buffer_has_exactly_one_holder :
+  forall ls r, reachable_l ls -> status (lbase ls) r = Detached ->
+  exists o, o_live (objs ls o) = true /\ o_raw (objs ls o) = Some r /\ o_fl (objs ls o) = true /\
+    forall o', o_raw (objs ls o') = Some r -> o' = o.
+Proof. exact detached_buffer_has_exactly_one_holder. Qed.
+Print Assumptions C19_detached_buffer_has_exactly_one_holder.
+
+(* FRAME: the operations of the Row class that the property does not name (move construction, Swap and hence move
+   assignment, destruction of an empty object) do not touch the free-list machine at all ... *)
+Theorem C19_row_object_ops_frame :
+  forall ls ll ls', stepl ls ll = Some ls' ->
+  match ll with
+  | LMoveCtor _ _ | LSwap _ _ => lbase ls' = lbase ls
+  | LDestroy _ o => o_raw (objs ls o) = None -> lbase ls' = lbase ls
+  | _ => True
+  end.
+Proof. exact row_object_ops_frame. Qed.
+Print Assumptions C19_row_object_ops_frame.
+
+(* ... and every base step other than allocate / extract / add / destructor-begin creates and destroys no detached buffer
+   (so it cannot invalidate what the Row objects rely on). *)
+Theorem C19_base_steps_frame_detached :
+  forall s l s' r, inv s -> object_free l = true -> step s l = Some s' ->
+  (status s' r = Detached <-> status s r = Detached).
+Proof. exact object_free_keeps_detached. Qed.
+Print Assumptions C19_base_steps_frame_detached.
+
+(* the generated ptExtractRaw (real code) is the model's extract step *)
+Theorem C19_generated_ptExtractRaw_is_model_step :
+  forall ob, extract_raw ob = (o_raw ob, mkObj (o_live ob) None (o_fl ob)).
+Proof. exact extract_raw_spec. Qed.
+Print Assumptions C19_generated_ptExtractRaw_is_model_step.
+
+Theorem C19_move_assign_over_live_row_example :
+  exists ls, runl linit ([LNew 0 0 None; LNew 1 1 None] ++ move_assign 9 0 1 5) = Some ls /\
+    o_raw (objs ls 0) = Some 1 /\ o_fl (objs ls 0) = true /\ o_raw (objs ls 1) = None /\ o_live (objs ls 9) = false /\
+    dpcs (lbase ls) 5 = Start 0 /\ status (lbase ls) 0 = Pending /\ status (lbase ls) 1 = Detached.
+Proof. exact ex_move_assign_over_live_row. Qed.
+Print Assumptions C19_move_assign_over_live_row_example.
+
+(* WHY Swap must swap the list pointer (wave-2 seed a) and WHY the move constructor must null its source (M11) *)
+Theorem C19_swap_without_list_pointer_refuted :
+  exists ls, run_with stepl_swap_keeps_fl linit ([LNew 0 0 None; LNew 1 1 None; LMoveCtor 2 0; LMoveCtor 9 1; LSwap 9 0]) = Some ls /\
+    o_live (objs ls 0) = true /\ o_raw (objs ls 0) = Some 1 /\ o_fl (objs ls 0) = false /\
+    stepl_swap_keeps_fl ls (LDestroy 5 0) = None /\ ~ linv ls.
+Proof. exact swap_without_list_pointer_refuted. Qed.
+Print Assumptions C19_swap_without_list_pointer_refuted.
+
+Theorem C19_movector_keeping_raw_refuted :
+  exists ls, run_with stepl_movector_keeps_raw linit [LNew 0 0 None; LMoveCtor 1 0] = Some ls /\
+    o_raw (objs ls 0) = Some 0 /\ o_raw (objs ls 1) = Some 0 /\ o_live (objs ls 0) = true /\ o_live (objs ls 1) = true /\ ~ linv ls.
+Proof. exact movector_keeping_raw_refuted. Qed.
+Print Assumptions C19_movector_keeping_raw_refuted.
 
 (* Non-vacuity: a 3-thread schedule with a genuinely failed CAS ... *)
 Theorem C19_nonvacuous_failed_cas :
